@@ -514,10 +514,14 @@ def evaluate(ctx, progs, tag="main", count=True, emit=True):
             # the property itself was already evaluated on this output above (semantic_check,
             # panic checks); if that raised nothing, report the broken correspondence
             already = [v for v in violations if v.get("program") == progs[k][1] and v.get("kind") != "model and implementation disagree"]
-            try:
-                mv = core.coq_eval(ctx.work, "%s_m%d" % (tag, idx), IMPORTS, ["run_data %s" % sx.to_coq(pairs[idx][0])])[0]
-            except core.CheckFailure:
-                mv = "?"
+            mv = "(not evaluated)"
+            shown = cov.get("model_values_shown", 0)
+            if shown < 3 and not any(v.get("program") == progs[k][1] for v in violations):
+                cov["model_values_shown"] = shown + 1
+                try:
+                    mv = core.coq_eval(ctx.work, "%s_m%d" % (tag, idx), IMPORTS, ["run_data %s" % sx.to_coq(pairs[idx][0])])[0]
+                except core.CheckFailure:
+                    mv = "?"
             report(k, "model and implementation disagree",
                    {"solver": sname, "trait": str(t[1]), "real": str(t[4]), "model": mv[:600],
                     "disjoint": str(t[5]), "specializes": str(t[6]),
